@@ -1,7 +1,7 @@
 (* C06/Proofs13.v — several INIT records: with pairwise disjoint ranges the record used for a lookup address is
    "the one that covers it", independent of the order of the records in the file. *)
 From Coq Require Import Lia Permutation.
-From RM Require Import C06.Model C06.GenModel C06.Driver C06.GenDriver.
+From RM Require Import C06.Model C06.GenModel C06.Driver C06.GenDriver C06.Proofs6.
 Open Scope Z_scope.
 
 Definition disjoint_recs (rs : list cfi_record) : Prop :=
@@ -45,4 +45,27 @@ Proof.
     split; [apply (Permutation_in _ P A)|exact B].
   - symmetry. apply (proj2 (find_record_spec rs' addr D')). intros r Hr.
     apply (find_record_none _ _ F). apply (Permutation_in _ (Permutation_sym P) Hr).
+Qed.
+
+(* the extracted entry points (GenDriver, over the generated tables) are the hand-written drivers of C06/Driver.v
+   (which C07 builds on) *)
+Lemma gen_driver_is_driver :
+  (forall w lookup initaddr initsize regs membase mem init deltas names,
+     run_mock_gen w lookup initaddr initsize regs membase mem init deltas names =
+     run_mock w lookup initaddr initsize regs membase mem init deltas names) /\
+  (forall k ctx valid stackbase stack initaddr initsize init deltas,
+     run_real_gen k ctx valid stackbase stack initaddr initsize init deltas =
+     run_real k ctx valid stackbase stack initaddr initsize init deltas) /\
+  (forall w lookup regs membase mem r names,
+     run_mock_multi_gen w lookup regs membase mem [r] names =
+     run_mock w lookup (fst (c_init r)) (c_size r) regs membase mem (snd (c_init r)) (c_add r) names).
+Proof.
+  split; [|split].
+  - intros. unfold run_mock_gen, run_mock. rewrite C06.Proofs6.gen_walk_frame_eq. reflexivity.
+  - intros. unfold run_real_gen, run_real. cbv zeta. rewrite C06.Proofs6.gen_walk_frame_eq. reflexivity.
+  - intros. unfold run_mock_multi_gen, run_mock. cbn [find_record].
+    destruct r as [[ia it] sz ad]. cbn [c_init c_size c_add fst snd].
+    destruct (cfi_covers (mkCfi (ia, it) sz ad) lookup) eqn:C.
+    + rewrite C06.Proofs6.gen_walk_frame_eq. reflexivity.
+    + unfold walk_frame_cfi. rewrite C. reflexivity.
 Qed.
